@@ -141,6 +141,16 @@ var HTMLEndTagOmissibleBlind = set(`li dt dd caption tr td th`)
 // … elements whose end tag can be dropped blindly only inside the named ancestor.
 var HTMLEndTagOmissibleBlindIn = map[string]string{"option": "select"}
 
+// HTML §13.2.6.4.7 "in body": a start tag rb or rtc generates all implied end tags (rb, rp, rt, rtc among them); a start tag
+// rp or rt generates implied end tags "except for rtc elements". HTMLRubyClosers[next] = the open ruby parts that a start
+// tag `next` closes.
+var HTMLRubyClosers = map[string]map[string]bool{
+	"rb":  set(`rb rp rt rtc`),
+	"rtc": set(`rb rp rt rtc`),
+	"rt":  set(`rb rp rt`),
+	"rp":  set(`rb rp rt`),
+}
+
 // HTML §13.2.6.4.13 "in table body": the start tags that pop the current thead/tbody/tfoot.
 var HTMLTableSectionClosers = set(`caption col colgroup tbody tfoot thead`)
 
